@@ -189,14 +189,17 @@ int64_t cmi_resourceguard_wait_since(struct cmb_resourceguard *rgp,
 
     /*
      * Yield to the dispatcher, collect the return signal value when resumed. A
-     * success code while we are still in the queue is not a grant (a grant takes
-     * us off the queue first): it was meant for something this process did
-     * earlier, e.g., a resume for a yield. Go on waiting.
+     * success code while we are still registered as waiting here is not our
+     * wakeup call (that takes the registration away before it resumes us, also
+     * the one from a condition): it was meant for something else, e.g., a
+     * timer carrying the success code. Go on waiting, also if we have been
+     * selected and taken off the queue already and the call is on its way.
      */
     int64_t sig;
     do {
         sig = (int64_t)cmi_coroutine_yield(NULL);
-    } while ((sig == CMB_PROCESS_SUCCESS) && cmi_hashheap_is_enqueued(hp, key));
+    } while ((sig == CMB_PROCESS_SUCCESS)
+             && cmi_process_is_awaiting(pp, CMI_PROCESS_AWAITABLE_RESOURCE, rgp));
 
     /* Back here, possibly much later. Return the signal that resumed us. */
     if (sig != CMB_PROCESS_SUCCESS) {
@@ -230,6 +233,9 @@ static void wakeup_event_resource(void *vp, void *arg)
     struct cmb_process *pp = (struct cmb_process *)vp;
     cmb_logger_info(stdout, "Wakes %s signal %" PRIi64,
                 pp->name, (int64_t)arg);
+
+    /* Cannot be waiting for more than one at a time, see cmi_resourceguard_wait_since */
+    (void)cmi_process_remove_awaitable(pp, CMI_PROCESS_AWAITABLE_RESOURCE, NULL);
 
     struct cmi_coroutine *cp = (struct cmi_coroutine *)pp;
     if (cp->status == CMI_COROUTINE_RUNNING) {
